@@ -704,7 +704,9 @@ pub fn oracle_c06(c: &Case, imp: &ImplRun, rep: &mut Report) {
             contents.clear();
         } else if let Some(n) = l.strip_prefix("enter ") {
             let id: u32 = n.parse().unwrap_or(0);
-            cfg.push(id);
+            if !cfg.contains(&id) {
+                cfg.push(id);
+            }
             entered.push(id);
         } else if let Some(n) = l.strip_prefix("arg contentId=") {
             if in_enter {
@@ -786,7 +788,9 @@ pub fn oracle_c07(c: &Case, imp: &ImplRun, rep: &mut Report) {
         if let Some(n) = l.strip_prefix("enter ") {
             flush(&mut pending, rep);
             let id: u32 = n.parse().unwrap_or(0);
-            cfg.push(id);
+            if !cfg.contains(&id) {
+                cfg.push(id);
+            }
             if let Some(st) = tb.states.get(&id) {
                 if st.is_final {
                     if st.parent == tb.root {
